@@ -83,6 +83,60 @@ fn one<A: VArena>(out: &mut Out, reserved: u32, unify: bool, backend: Backend, c
     out.hash(mix(mix(reserved as u64, unify as u64), mix(backend as u64, A::FLAVOUR as u64)));
 }
 
+/// Opening an existing (valid, empty) arena file is construction too: with a capacity option that cannot
+/// hold the prefix every open variant must refuse, with one that can it must succeed and report the layout.
+fn reopen_caps<A: VArena>(out: &mut Out, reserved: u32) {
+    let mut cfg = Cfg { flavour: A::FLAVOUR, backend: Backend::File, freelist: FL::Optimistic, unify: true, reserved, min_seg: 20, max_align: 8, cap: 0, retries: 5, magic: 0, file_offset: 0, path: None };
+    let prefix = cfg.prefix();
+    cfg.cap = prefix + 64;
+    cfg.path = Some(format!("{}/layout-reopen-{}.arena", tmp_dir(), reserved));
+    match create::<A>(&cfg) {
+        Ok(a) => drop(a),
+        Err(_) => return,
+    }
+    let before = std::fs::read(cfg.path.as_ref().unwrap()).unwrap_or_default();
+    let detail = |msg: String| crate::jobj!("reserved" => reserved, "backend" => "File (reopen)", "flavour" => format!("{:?}", A::FLAVOUR), "message" => msg);
+    for mode in [OpenMode::Map, OpenMode::MapCopyRo, OpenMode::MapMut, OpenMode::MapCopy] {
+        for cap in 1..=prefix + 2 {
+            out.inc("c16_reopen_capacity_cases");
+            let r = std::panic::catch_unwind(std::panic::AssertUnwindSafe(|| reopen::<A>(&cfg, mode, Some(cap), false)));
+            let r = match r {
+                Ok(r) => r,
+                Err(_) => {
+                    let (loc, msg) = crate::seq::LAST_PANIC.with(|p| p.borrow().clone());
+                    out.viol("C16", "construction-panicked", detail(format!("{:?} of an existing file with capacity {}: panic at {}: {}", mode, cap, loc, msg)));
+                    continue;
+                }
+            };
+            match r {
+                Ok(a) => {
+                    if cap < prefix {
+                        out.viol("C16", "construction-accepted-too-small-capacity", detail(format!("{:?} of an existing file with capacity {} (prefix {}) succeeded: data_offset() {} capacity() {} remaining() {}", mode, cap, prefix, a.data_offset(), a.capacity(), a.remaining())));
+                    } else if a.data_offset() as u32 != prefix || a.allocated() as u32 != prefix || (a.capacity() as u32) < prefix || a.remaining() != a.capacity() - a.allocated() || a.reserved_slice().len() as u32 != reserved {
+                        out.viol("C16", "layout-accessors", detail(format!("{:?} with capacity {}: data_offset()={} allocated()={} capacity()={} remaining()={} reserved_slice().len()={} (prefix {})", mode, cap, a.data_offset(), a.allocated(), a.capacity(), a.remaining(), a.reserved_slice().len(), prefix)));
+                    }
+                    drop(a);
+                }
+                Err(e) => {
+                    if cap >= prefix {
+                        out.viol("C16", "construction-refused-sufficient-capacity", detail(format!("{:?} of an existing file with capacity {} (prefix {}) failed: {}", mode, cap, prefix, e)));
+                    } else {
+                        if e.kind() != std::io::ErrorKind::InvalidInput {
+                            out.viol("C16", "construction-wrong-error", detail(format!("{:?} with capacity {} (< prefix {}): error {:?} {}", mode, cap, prefix, e.kind(), e)));
+                        }
+                        out.inc("c16_reopen_capacity_refusals");
+                    }
+                }
+            }
+        }
+    }
+    let after = std::fs::read(cfg.path.as_ref().unwrap()).unwrap_or_default();
+    if after.len() < before.len() || after[..before.len()] != before[..] {
+        out.viol("C16", "reopen-capacity-sweep-altered-file", detail("the opens of the capacity sweep (refused ones and accepted ones of an empty arena) changed bytes of the file".into()));
+    }
+    let _ = std::fs::remove_file(cfg.path.as_ref().unwrap());
+}
+
 pub fn child_main(args: &Args) -> i32 {
     let mut out = Out::new();
     crate::seq::install_panic_capture();
@@ -102,6 +156,10 @@ pub fn child_main(args: &Args) -> i32 {
                 one::<sync::Arena>(&mut out, r, unify, backend, sweep);
                 one::<unsync::Arena>(&mut out, r, unify, backend, sweep);
             }
+        }
+        if r <= 72 || r % 257 == 0 || r == 4096 {
+            reopen_caps::<sync::Arena>(&mut out, r);
+            reopen_caps::<unsync::Arena>(&mut out, r);
         }
         r += step;
     }
